@@ -231,6 +231,31 @@ def cleaner_fault(ck, rb, drv, rng, fails, mism):
     R.history = ["unlink intd/ fails in qmail-clean"]
     base.check_history(ck, drv, W, R, "cleaner unlink fault", [], [])
 
+def aged_todo_stalled(ck, rb, drv, rng, fails, mism):
+    """a message that sat in todo/ for more than 36 hours (the daemon was down) while its preprocessing keeps failing (info/n cannot be
+    created): the cleanup pass reaches mess/n first - it must see the todo entry and leave the message alone (S4 stays S4)"""
+    W = qc.World(rb, "agedtodo", extra_env={"SYSSHIM_FAIL": "open:info/:28"})
+    for j in range(3):
+        W.inject(rcpts=[b"old%d@local.example" % j], env=dict(W.env, SYSSHIM_FAIL=""))
+    L0 = qc.listing(W.home)
+    for n in L0:
+        t = time.time() - 39 * 3600; os.utime(qc.qpath(W.home, "mess", n), (t, t)); W.mark("aged %d" % n)
+    R = qc.Runner(W, {}, default=b"Z"); R.start()
+    bad = None
+    for _ in range(14):
+        R.service(0.12)
+        b = undocumented(W.home)
+        if b and not bad: bad = b
+    L = qc.listing(W.home)
+    R.kill()
+    ck.evaluated(len(L0)); ck.nontrivial("aged-todo-stalled"); ck.count("aged_todo_stalled")
+    obj = dict(kind="history", scenario="three messages 39 hours in todo/, every creation of info/n fails with ENOSPC after the daemon starts",
+               before={str(n): sorted(f) for n, f in L0.items()}, after={str(n): sorted(f) for n, f in L.items()})
+    if bad: fails.append(("queue:undocumented-state", dict(obj, listing=bad[:5]), 1))
+    elif any(n not in L for n in L0): fails.append(("queue:live-message-collected", obj, 1))
+    R.history = ["aged todo entries, info/ creation fails"]
+    base.check_history(ck, drv, W, R, "aged todo stalled", [], [])
+
 def second_daemon(ck, rb, fails):
     W = qc.World(rb, "second")
     W.inject(rcpts=[b"keep@local.example"])
@@ -269,6 +294,7 @@ def main():
     aging(ck, rb, drv, rng, fails, mism)
     bounce_chain(ck, rb, drv, rng, fails, mism)
     cleaner_fault(ck, rb, drv, rng, fails, mism)
+    aged_todo_stalled(ck, rb, drv, rng, fails, mism)
     second_daemon(ck, rb, fails)
     base.finish(ck, fails, mism, "queue")
 
